@@ -48,6 +48,12 @@ func Run(p *load.Program, r *report.Report) {
 	a.outputSide()
 }
 
+// InputGate evaluates the input-side rules only (where sections and their CRC_32 end, the gate itself).
+func InputGate(p *load.Program, r *report.Report) {
+	a := &A{P: p, R: r, funcs: p.SrcFuncs()}
+	a.inputGate()
+}
+
 // ---------------------------------------------------------------------------------------------
 // anchors, positions
 
